@@ -402,6 +402,18 @@ impl ApplicationHeader {
                     });
                 }
 
+                // I + type (3) + destination (12) + priority (1) [+ delivery monitoring (1)
+                // [+ obsolescence period (3)]]: anything else would be read only in part
+                if !matches!(block2.len(), 17 | 18 | 21) {
+                    return Err(ParseError::InvalidBlockStructure {
+                        block: "2".to_string(),
+                        message: format!(
+                            "Input Block 2 must be 17, 18 or 21 characters, got {}",
+                            block2.len()
+                        ),
+                    });
+                }
+
                 let raw_destination_address = block2[4..16].to_string();
                 let priority = block2[16..17].to_string();
 
@@ -492,6 +504,16 @@ impl ApplicationHeader {
                 }
 
                 // Parse Output format components according to SWIFT specification:
+                if block2.len() > 47 {
+                    return Err(ParseError::InvalidBlockStructure {
+                        block: "2".to_string(),
+                        message: format!(
+                            "Output Block 2 must be 46 or 47 characters, got {}",
+                            block2.len()
+                        ),
+                    });
+                }
+
                 let input_time = block2[4..8].to_string(); // HHMM
 
                 // MIR (Message Input Reference) components
